@@ -1,5 +1,6 @@
 import CssVerif.Lemmas.Media
 import CssVerif.Lemmas.MediaSetType
+import CssVerif.Lemmas.MediaSetTypeReparse
 import CssVerif.Lemmas.MediaSimL
 /-!
 # C17 — media lists are canonical ordered sets; media queries survive intact
@@ -226,6 +227,33 @@ theorem setMediaType_keeps_non_idents (q : MQ) (raising : Bool) (mt : Cps) :
     (q.setMediaType raising mt).1.items.filter keptItem = q.items.filter keptItem :=
   setMediaType_keeps q raising mt
 
+/-- exact effect on EVERY query object, comments included, and every known type: the new `mediaType` is the given
+string; the sequence changes at one place only — the first string item that is not `only` / `not` is replaced by the
+type when it is an IDENT, gets `type and` put in front otherwise (a parenthesis); a sequence without such an item
+gets the type in front. Everything before and after that place is untouched. -/
+theorem setMediaType_exact (q : MQ) (raising : Bool) (mt : Cps) (hm : isMediaType mt = true) :
+    (q.setMediaType raising mt).2 = .ret () ∧ (q.setMediaType raising mt).1.mediaType = mt ∧
+    (((∀ i ∈ q.items, passedItem i = true) ∧ (q.setMediaType raising mt).1.items = typeItem mt :: q.items) ∨
+     ∃ pre t post, q.items = pre ++ QItem.tok t :: post ∧ (∀ i ∈ pre, passedItem i = true) ∧
+       isSetterSkipWord t.val = false ∧
+       (q.setMediaType raising mt).1.items
+         = pre ++ (if t.typ = .ident then [typeItem mt] else [typeItem mt, setterAndItem, QItem.tok t]) ++ post) := by
+  have hc : Gen.C17Media.mediaTypes.contains (normalize mt) = true := hm
+  unfold MQ.setMediaType
+  simp only [hc, if_true, true_and]
+  cases hg : setTypeGo mt q.items with
+  | none => exact .inl ⟨setTypeGo_none mt q.items hg, rfl⟩
+  | some r => exact .inr (setTypeGo_spec mt q.items r hg)
+
+/-- for EVERY query the parser accepts — comments at any place, any white space — and every known media type: the
+sequence the setter leaves is again an accepted query: its tokens parse, stand-alone, to exactly that sequence
+(together with `setMediaType_exact`: the query with the type changed and nothing else) -/
+theorem setMediaType_result_reparses (ts : List Tok) (q : MQ) (h : parseQ {} ts = .ok q) (raising : Bool) (mt : Cps)
+    (hm : isMediaType mt = true) :
+    ∃ mt', parseQ {} (q.setMediaType raising mt).1.toks
+      = .ok { items := (q.setMediaType raising mt).1.items, mediaType := mt' } :=
+  setMediaType_reparse ts q h raising mt hm
+
 /-- an unknown media type is rejected (SyntaxErr, logged or raised) and nothing changes -/
 theorem setMediaType_unknown_rejected (q : MQ) (raising : Bool) (mt : Cps) (hm : isMediaType mt = false) :
     q.setMediaType raising mt = (q, if raising then .raised .syntaxErr else .ret ()) := by
@@ -344,6 +372,10 @@ example : (QAst.typed (some (tIdent [110, 111, 116])) (tIdent wTv)
     · refine ⟨rfl, by decide, rfl, ?_⟩
       intro v hv; cases hv; exact ⟨.color, by decide⟩
     · exact ⟨rfl, by decide, rfl, by intro v hv; cases hv⟩
+
+/-- `setMediaType_result_reparses` says something: `/*c*/ (color)` is accepted and `tv` is a known type -/
+example : (∃ q, parseQ {} [tComment wComment, tSpace, tChar cOpen, tIdent wColor, tChar cClose] = .ok q) ∧
+    isMediaType wTv = true := ⟨⟨_, rfl⟩, by decide⟩
 
 /-- the hypotheses of `setMediaType_changes_type_only` are satisfiable, with a prefix and with a leading expression -/
 example : (QAst.typed (some (tIdent [110, 111, 116])) (tIdent wTv) []).Valid ∧
